@@ -1,10 +1,12 @@
 import WuffsVerif.Common.Line
 import WuffsVerif.Model.WCore.Bounds
 import WuffsVerif.Model.WCore.Stmt
+import WuffsVerif.Model.WCore.NoRec
 /-! Line driver for C01 (WCore scalar fragment).  Ops:
   tb <type>                     -> lo hi | reject                 (bcheckTypeExpr1)
   bounds <n> <fact>*n <expr>    -> lo:hi per node, pre-order | reject      (bcheckExpr)
   facts <n> <fact>*n <stmt>     -> <m> <fact>*m | reject          (bcheckAssignment, scalar)
+  norec <n> (<k> <callee>*k)*n  -> ok | cycle                     (checkNoRecursiveFuncs)
   <type> = base min max  (min / max decimal or _)
   <expr> = c <int> | v <name> <type> | u <op> e | b <op> l r | as <type> e | a <op> <n> e*n
 -/
@@ -127,6 +129,13 @@ def parseStmt : List String → Option (Stmt × List String)
     pure (.opAssign op l r, rest)
   | _ => none
 
+def parseGraph : Nat → List Nat → List (List Nat) → Option (List (List Nat))
+  | 0, [], acc => some acc.reverse
+  | 0, _ :: _, _ => none
+  | _ + 1, [], _ => none
+  | n + 1, k :: rest, acc =>
+    if rest.length < k then none else parseGraph n (rest.drop k) (rest.take k :: acc)
+
 def c01Step (l : List String) : String :=
   match l with
   | "tb" :: rest =>
@@ -166,6 +175,13 @@ def c01Step (l : List String) : String :=
           | some fs' => toString fs'.length ++ (String.join (fs'.map fun f => " " ++ showExpr f))
         | _ => "bad-op"
       | none => "bad-op"
+  | "norec" :: n :: rest =>
+    match n.toNat?, rest.mapM String.toNat? with
+    | some n, some nums =>
+      match parseGraph n nums [] with
+      | some g => if WuffsVerif.WCore.NoRec.accepts g then "ok" else "cycle"
+      | none => "bad-op"
+    | _, _ => "bad-op"
   | _ => "bad-op"
 
 def main : IO Unit := runPure c01Step
